@@ -39,21 +39,7 @@ def mis_out(rng, meta, nstrata, binary):
     return ('garbage', [round(rng.uniform(0, 20), 2) for _ in range(nstrata)], [round(rng.uniform(0, 20), 2) for _ in range(nstrata)])
 
 
-def add_missing(rng, df, binary):
-    """outcomes set to NaN so that every (stratum, arm) cell keeps >= 2 observed outcomes (both values when binary)"""
-    df = df.copy()
-    for _, idx in df.groupby(['S', 'A']).groups.items():
-        idx = list(idx)
-        rng.shuffle(idx)
-        keep = []
-        if binary:
-            keep = [next(i for i in idx if df.at[i, 'Y'] == 1.0), next(i for i in idx if df.at[i, 'Y'] == 0.0)]
-        else:
-            keep = idx[:2]
-        rest = [i for i in idx if i not in keep]
-        for i in rest[:rng.randint(0, len(rest))]:
-            df.at[i, 'Y'] = float('nan')
-    return df
+add_missing = datagen.add_missing
 
 
 def fit_one(est, df, meta, tside, oside, mside=None):
@@ -61,10 +47,12 @@ def fit_one(est, df, meta, tside, oside, mside=None):
     None | ('sat',) | ('formula', rhs)"""
     from zepid.causal.doublyrobust import AIPTW, TMLE
     binary = meta['outcome'] == 'binary'
+    dfc = df.copy()
     if est == 'AIPTW':
-        o = AIPTW(df, 'A', 'Y')
+        o = AIPTW(dfc, 'A', 'Y')
     else:
-        o = TMLE(df, 'A', 'Y') if binary else TMLE(df, 'A', 'Y', continuous_bound=1e-10)   # the option is for continuous outcomes only
+        o = TMLE(dfc, 'A', 'Y') if binary else TMLE(dfc, 'A', 'Y', continuous_bound=1e-10)   # the option is for continuous outcomes only
+    ec.scramble(dfc)          # the caller's own frame changes after construction: the estimator analyses what it was given
     if tside[0] == 'sat':
         o.exposure_model(meta['sat_L'], print_results=False)
     elif tside[0] == 'formula':
@@ -79,8 +67,13 @@ def fit_one(est, df, meta, tside, oside, mside=None):
         o.outcome_model(oside[1], print_results=False)
     else:
         o.outcome_model('S + A', custom_model=ec.Garbage(oside[1], oside[2], col=0, acol=1), print_results=False)
+    pk = ec.should_poke(df)
+    if pk:
+        ec.poke(o)
     o.fit()
-    out = {}
+    if pk:
+        ec.poke(o)
+    out = {'poked': pk}
     if est == 'AIPTW':
         out['g'] = np.asarray(o.df['_g1_'], dtype=float)
         out['q1'] = np.asarray(o.df['_pY1_'], dtype=float)
